@@ -205,6 +205,7 @@ def run(ctx):
     cfg0(ctx)
     binding(ctx)
     field(ctx)
+    polar(ctx)
     fallbacks(ctx)
     compositions(ctx)
     principal_sqrt(ctx)
@@ -379,6 +380,32 @@ def field(ctx):
                 rep.bad('CX-2', name, 'returns %s, expected %s' % (lv[0].ret, want), loc=fn.loc(fn.entry.instrs[0]), key='%s: value' % name)
         except Unsupported as e:
             rep.unk('CX-2', name, str(e))
+
+
+def polar(ctx):
+    """polar construction: (rho cos theta, rho sin theta)"""
+    rep = ctx.rep
+    name = 'a_complex_polar'
+    fn = ctx.fn('complex', name)
+    if fn is None:
+        rep.unk('CX-2', name, 'anchor vanished')
+        return
+    loc = fn.loc(fn.entry.instrs[0])
+    try:
+        dom = CDom(getattr(ctx, 'ctab', {}))
+        rho, th = dom.sym('rho', real=True), dom.sym('theta', real=True)
+        lv = symx.Interp(dom, lookup_in([ctx.module('complex')])).run(fn, [Ptr('ctx', 0), rho, th])
+        ok = len(lv) == 1
+        if ok:
+            gr, gi = lv[0].store.get(('ctx', 0)), lv[0].store.get(('ctx', 8))
+            ok = gr is not None and gi is not None and zero(sp.sympify(gr[0]) - rho * sp.cos(th)) and zero(sp.sympify(gi[0]) - rho * sp.sin(th))
+        if ok:
+            rep.ok('CX-2', name, '*ctx = (rho cos theta, rho sin theta)', loc=loc)
+        else:
+            rep.bad('CX-2', name, 'stores (%s, %s), expected (rho cos theta, rho sin theta)' % (gr and gr[0], gi and gi[0]) if len(lv) == 1 else '%d paths' % len(lv),
+                    loc=loc, key='%s: value' % name)
+    except Unsupported as e:
+        rep.unk('CX-2', name, str(e))
 
 
 def fallbacks(ctx):
